@@ -369,6 +369,9 @@ type c04KindsComp struct{}
 func init() { register("seckinds", &c04KindsComp{}) }
 
 func (c04KindsComp) Exec(op string) (result, monitor, class string, nontrivial bool) {
+	if t := strings.Fields(op); len(t) == 6 || (len(t) == 1 && t[0] == "spellings") {
+		return c04ExecSpell(t) // second op form: every spelling the parser accepts, c04_spell.go
+	}
 	c, ok := parseC04Cell(op)
 	if !ok {
 		return "bad-op", "", "bad-op", false
@@ -413,6 +416,7 @@ func (c04KindsComp) Exec(op string) (result, monitor, class string, nontrivial b
 }
 
 func (c04KindsComp) Gen(r *Rand, tier string, emit func(op string)) {
+	c04GenSpell(r, tier, emit)
 	bits := []string{"0", "1"}
 	for _, k := range c04Kinds {
 		if k == "dns" {
